@@ -1,6 +1,8 @@
 //! bppv — conformance harness binding the TLA+ specification in /verif/spec to the library in /repo.
 #![allow(dead_code, unused_imports)]
 mod fm;
+mod refgens;
+mod trace;
 mod util;
 
 use std::io::{BufRead, Write};
@@ -102,6 +104,46 @@ fn main() {
         "run" => match arg(&args, "--group").unwrap_or("rist") {
             "fm" => run_cmd!(fmx, &args),
             _ => run_cmd!(rist, &args),
+        },
+        "trace" => {
+            // run scenarios on the free-module group with every instrument recording; write ndjson trace events
+            let path = arg(&args, "--scen").expect("--scen");
+            let outp = arg(&args, "--out").expect("--out");
+            let seed: u64 = arg(&args, "--seed").map(|s| s.parse().unwrap()).unwrap_or(1);
+            let arith = args.iter().any(|a| a == "--arith");
+            let which = arg(&args, "--calls").unwrap_or("verify");
+            let mut ctx = fmx::Ctx::new(seed);
+            let f = std::io::BufReader::new(std::fs::File::open(path).expect("scenario file"));
+            let mut w = std::io::BufWriter::new(std::fs::File::create(outp).expect("trace file"));
+            let first: u64 = arg(&args, "--first-index").map(|s| s.parse().unwrap()).unwrap_or(0);
+            let mut n = first;
+            let mut ncalls = 0u64;
+            let mut nev = 0u64;
+            for line in f.lines() {
+                let line = line.unwrap();
+                if line.trim().is_empty() {
+                    continue;
+                }
+                let v: Value = serde_json::from_str(&line).expect("scenario json");
+                let mut recs: Vec<fmx::CallRec> = vec![];
+                fm::clear_digests();
+                let (_out, _) = fmx::run_scenario(&mut ctx, &v["sc"], n, None, Some(&mut recs));
+                let mut toks = util::Toks::default();
+                let mut evs: Vec<Value> = vec![];
+                for r in &recs {
+                    if r.kind == "verify" && which.contains("verify") {
+                        trace::verify_trace(r, &mut toks, arith, &mut evs);
+                        ncalls += 1;
+                    }
+                }
+                for e in evs.iter_mut() {
+                    e["scen"] = json!(n - first);
+                    writeln!(w, "{}", e).unwrap();
+                    nev += 1;
+                }
+                n += 1;
+            }
+            println!("{}", json!({"scenarios": n - first, "calls": ncalls, "events": nev}));
         },
         _ => {
             let _ = writeln!(std::io::stderr(), "usage: bppv run --scen FILE [--group fm|rist] [--seed N] [--scale MODEL:REAL]");
